@@ -21,9 +21,11 @@ def run():
              f"({b.notes.get('order_cases')} constructions); acyclic ones are also run through make_reports_data "
              f"with recording stub repositories. (2) {b.notes.get('history_cases')} seeded two-repository "
              f"histories (VERIF_SEED) on the mock repository: component of 2-8 commits on one branch (half linear, "
-             f"half DAGs with merges and parallel tagged sub-branches), 1-5 builds with growing numbers, 1-4 "
+             f"half DAGs with merges and parallel tagged sub-branches), 1-5 builds with growing numbers, in half of the "
+             f"components 30-60 % of the build commits were built twice (two build tags, distinct numbers), 1-4 "
              f"matching commits; parent of 2-10 commits (merges, 1-2 roots), 0-2 release branches + master with "
-             f"heads anywhere, 0-5 build tags, 0-2 own matching commits, every commit pinning a component build, "
+             f"heads anywhere, 0-5 build tags, 0-2 own matching commits, every commit pinning a component build by "
+             f"any of its numbers, "
              f"pins monotone along every edge; both supply orders; all times within one day. "
              f"non-trivial = (1) >= 2 repositories with a dependency between supplied ones, "
              f"(2) the parent's builds pin >= 2 distinct component builds",
@@ -35,7 +37,9 @@ def run():
                    "the component has a single branch (with several component branches the statement's 'contains' "
                    "is ambiguous between ancestry and per-branch listing); builds of a parent branch as defined in C06",
                    "'never decreases' is read as: the pinned component commit of a child is the pinned commit of its "
-                   "parent or a descendant of it (equals the numeric order on linear component histories)",
+                   "parent or a descendant of it, and the pinned number is not smaller (equals the numeric order on "
+                   "linear component histories)",
+                   "a component build = a build-tagged commit; all build numbers of one commit name that build",
                    "every parent commit pins a build-tagged component commit reachable from the component's head",
                    "all commit times of both repositories within one day (inside both cut-off windows)",
                    "one build tag per parent commit, distinct build numbers (included_at identifies parent builds by "
